@@ -121,8 +121,8 @@ func ReadHexInt(r network.Reader) (int, error) {
 	for {
 		buf, err := r.Peek(1)
 		if err != nil {
-			r.Skip(1)
-
+			// (nothing to skip: the byte has not been received; on a connection that
+			// waits in Skip, skipping here throws away the byte that arrives next)
 			if i > 0 {
 				return n, nil
 			}
